@@ -94,8 +94,13 @@ func (f *finisher) worker(workerID string) {
 			return
 		case <-controlChans.PauseCh:
 			logger.Debug("received pause event")
-			controlChans.ResumeCh <- struct{}{}
-			logger.Debug("received resume event")
+			select {
+			case controlChans.ResumeCh <- struct{}{}:
+				logger.Debug("received resume event")
+			case <-f.ctx.Done():
+				logger.Debug("shutting down while paused")
+				return
+			}
 		case seed, ok := <-f.inputCh:
 			if ok {
 				if seed == nil {
